@@ -62,6 +62,13 @@ CHECKS['C13'] = dict(
     design_ref='DESIGN.md section 3 C13',
     note='dict backend; US-ASCII messages, substring matching (charset conversion and MIME-decoded matching not modelled); nesting depth <= 2; hand-built mailbox rather than random messages (sampling is outside the family)',
     technique='bounded-exhaustive enumeration of search programs executed on the implementation, compared with an independent evaluator')
+CHECKS['C19'] = dict(
+    engine='E5 explicit-state BFS over vf/checks/c19.py',
+    category='model_checking',
+    text='Exhaustive BFS (depth 4 quick / 5 thorough) over a 58-event ManageSieve alphabet on two connections and two users: AUTHENTICATE PLAIN in initial-response and challenge forms (good, wrong password, cancelled, unknown mechanism, second user on the same connection), UNAUTHENTICATE, LOGOUT, NOOP with and without tag, CAPABILITY, STARTTLS, unknown command, and PUTSCRIPT/GETSCRIPT/SETACTIVE/DELETESCRIPT for names {a, b, UTF-8, name with a quote, empty} with valid/invalid/empty/binary script bodies (quoted and literal spellings), LISTSCRIPTS, SETACTIVE "", RENAMESCRIPT pairs incl. self-rename and existing target, HAVESPACE, CHECKSCRIPT. Every response is parsed by an independent RFC 5804 response parser and compared with a dictionary model per user (name->bytes, one active name); before authentication every script command must be refused; after every step the real filter stores of both users (glass-box) must equal the models (isolation, no effect of refused commands); at every state fresh authenticated connections and the explored connections themselves re-list and re-fetch everything.',
+    design_ref='DESIGN.md section 3 C19',
+    note='dict backend filter store; PUTSCRIPT of an invalid script or with an empty name may be refused or accepted; TLS handshake answered by the mock transport',
+    technique='explicit-state model checking of the implementation against a dictionary model')
 NA = {}
 
 def main():
